@@ -417,3 +417,28 @@ Theorem handler_side_sites_meaning : forall f fn k e, In (f, fn, k, e) gen_handl
   exists c, In (f, fn, k, e, c) site_allow_list.
 Proof. apply sites_ok_sound. vm_compute. reflexivity. Qed.
 Print Assumptions handler_side_sites_meaning.
+
+(* ---- bytes read per request: the decoded size of a compressed body is NOT limited ------------ *)
+
+(* "the bytes a request makes the server read stay within what the oracle tolerates for its size" is FALSE of the
+   pipeline: under Content-Encoding gzip 100 KiB on the wire can be 100 MiB decoded (deflate allows 1032:1), which the
+   routes read whole.  Witness replayed on the real router: corpus/C05/findings.jsonl (33 KB -> hundreds of MB
+   allocated); listed as finding decompression-amplification. *)
+Theorem decoded_size_unbounded_refuted : exists ce body decoded,
+  (0 <= decoded <= gzip_max_ratio * body)%Z /\ ~ (bytes_read ce body decoded <= alloc_bound_bytes body)%Z.
+Proof.
+  exists "gzip"%string, 102400%Z, 104857600%Z. destruct gzip_amplification_witness as [H1 H2].
+  split; [exact H1|]. intros H. apply (Z.lt_irrefl (alloc_bound_bytes 102400)). eapply Z.lt_le_trans; [exact H2|exact H].
+Qed.
+Print Assumptions decoded_size_unbounded_refuted.
+
+(* strongest true form: without Content-Encoding the server reads the body it was sent; and a snappy BLOCK body
+   (remote write, Loki protobuf) is not decoded beyond the 10 MiB limit that is still in the source *)
+Theorem decoded_size_partial :
+  (forall body decoded, (0 <= body)%Z -> (bytes_read "" body decoded <= alloc_bound_bytes body)%Z) /\
+  gen_snappy_limit = Some snappy_limit.
+Proof. split; [exact identity_encoding_reads_the_body|vm_compute; reflexivity]. Qed.
+Print Assumptions decoded_size_partial.
+
+Example decoded_size_partial_hyp_met : (0 <= 73662464)%Z /\ bytes_read "" 73662464 0 = 73662464%Z.
+Proof. split; [discriminate|reflexivity]. Qed.
